@@ -51,7 +51,11 @@ def rule_norm_path(ctx, r):
     # the same with a concrete absolute working directory (the common case; a 'fast path' for it must still collapse '//', trailing '/', './' and '..')
     import posixpath as _pp
     for wd_, p in (("/proj", "results//aln.bam"), ("/proj", "logs/"), ("/proj/", "x"), ("/proj", "./x"), ("/proj/sub", "../x"), ("/proj", "a/./b/../c"), ("/proj//data", "f.txt"),
-                   ("/proj", "plain.txt")):
+                   ("/proj", "plain.txt"),
+                   # file names are arbitrary strings: a colon (region-named files, time stamps), brackets, a non-ASCII letter in decomposed form, a leading `~`
+                   # or `$` do not make a path anything other than a path below the working directory
+                   ("/proj", "chr2:1-5000.bed"), ("/proj", "./chr3:1-10.merged"), ("/proj", "counts[raw].txt"), ("/proj", "Mu\u0308ller.txt"), ("/proj", "~backup/x"),
+                   ("/proj", "$HOME/x"), ("/proj", "run 1/out.txt")):
         got = ev(np_, wd_, p)
         want_c = _pp.normpath(_pp.join(wd_, p))
         if got != want_c:
